@@ -851,7 +851,7 @@ Put(e) == IF e.post = e.pre THEN store ELSE (Key(e) :> e.post) @@ store
 \* failures that are not one of the documented benign races
 NonBenign(e, c) ==
   /\ ~Accepted(e)
-  /\ \/ e.code \in {0, 422, 500, 503}
+  /\ \/ e.code \in {0, 422, 500, 503, 504}
      \/ (e.code = 409 /\ e.verb = "delete")
 
 CtxAfterReq(c, e) ==
